@@ -32,7 +32,16 @@ pub fn init() {
         let st = CASE_START_MS.load(Ordering::SeqCst);
         if st != 0 && now_ms().saturating_sub(st) > WATCHDOG_MS {
             let case = CURRENT_CASE.lock().map(|c| c.clone()).unwrap_or_default();
-            println!("TIMEOUT {}", case);
+            // written straight to file descriptor 1: the main thread may be holding the lock of `stdout`
+            // (the recorders keep it for the whole run) and println! would wait for it for ever
+            {
+                use std::io::Write;
+                use std::os::unix::io::FromRawFd;
+                let mut raw = unsafe { std::fs::File::from_raw_fd(1) };
+                let _ = raw.write_all(format!("\nTIMEOUT {}\n", case).as_bytes());
+                let _ = raw.flush();
+                std::mem::forget(raw);
+            }
             std::process::exit(3);
         }
     });
@@ -64,7 +73,11 @@ pub enum ParseOut {
 
 pub fn run_parse(input: &str) -> ParseOut {
     let case = json!({"op":"parse","i":cps(input)});
-    match guarded(&case, || parse(input).map_err(|e| {
+    match guarded(&case, || {
+        // bin/selftest: a call that never returns, to show that the watchdog reports it
+        if input == "-selftest-hang" && std::env::var("FPVERIF_SELFTEST_HANG").is_ok() { loop { std::thread::sleep(std::time::Duration::from_millis(50)); } }
+        parse(input)
+    }.map_err(|e| {
         // rendering the error as text must succeed too (C03)
         e.to_string()
     })) {
